@@ -1339,6 +1339,34 @@ pub fn handle(st: &mut State, line: &str) -> String {
                 }
                 Ok(if bad.is_empty() { "OK".into() } else { format!("TIMEFRAC {}", bad.join(",")) })
             }
+            // NESTMT <dict> <threads> <iters> <frame>: that many threads decode the same (deeply nested, well-formed) frame over and over at
+            // the same time: how deep ONE message nests is that message's business
+            "NESTMT" => {
+                let dict = st.dicts.get(t.next()?).ok_or_else(|| "unknown dict".to_string())?.clone();
+                let threads = t.usize_dec()?;
+                let iters = t.usize_dec()?;
+                let frame = t.bytes()?;
+                let mut hs = Vec::new();
+                for _ in 0..threads {
+                    let d = Arc::clone(&dict);
+                    let f = frame.clone();
+                    hs.push(std::thread::spawn(move || {
+                        let mut refused = 0usize;
+                        for _ in 0..iters {
+                            let mut cur = Cursor::new(&f[..]);
+                            if DiameterMessage::decode_from(&mut cur, Arc::clone(&d)).is_err() {
+                                refused += 1;
+                            }
+                        }
+                        refused
+                    }));
+                }
+                let mut refused = 0usize;
+                for h in hs {
+                    refused += h.join().map_err(|_| "thread panicked".to_string())?;
+                }
+                Ok(format!("NESTMT decodes={} refused={}", threads * iters, refused))
+            }
             "XM" => run_decode_multi(st, &mut t),
             // XP <dict> <k> <frame>: decode_from on a reader that already stands k octets PAST the end of what it holds
             "XP" => {
